@@ -38,6 +38,9 @@ def _case(draw, tier):
     c["ri"] = draw(st.booleans())
     c["max_tau"] = draw(gen.maxtau_for(g))
     c["compiled"] = draw(st.booleans())
+    # the (valid) trains may be handed over with Reconcile=False: 'auto' still means
+    # the threshold pooled over the trains of the call
+    c["reconcile_off"] = draw(st.sampled_from([False, False, True]))
     return c
 
 
@@ -158,6 +161,7 @@ def run_case(case, ctx):
     ri = bool(case["ri"])
     mtk = {"max_tau": case["max_tau"]}
     rik = {"RI": True} if ri else {}
+    rok = {"Reconcile": False} if case.get("reconcile_off") else {}
     forms = [("bi", (sts[0], sts[1]), [0, 1])]
     forms.append(("multi", (sts,), list(range(len(sts)))))
 
@@ -236,7 +240,7 @@ def run_case(case, ctx):
                 ("spike_sync", pyspike.spike_sync, mtk, 1e-12),
                 ("spike_train_order", pyspike.spike_train_order, mtk, 1e-12),
                 ("spike_directionality_values", pyspike.spike_directionality_values, mtk, 0)):
-            ra = ctx.call(name + ":auto", fn, *args, MRTS="auto", **extra)
+            ra = ctx.call(name + ":auto", fn, *args, MRTS="auto", **rok, **extra)
             rt = ctx.call(name + ":explicit", fn, *args, MRTS=thr, **extra)
             ja = _arr(ra) if hasattr(ra, "x") else ra
             jt = _arr(rt) if hasattr(rt, "x") else rt
@@ -255,7 +259,7 @@ def run_case(case, ctx):
             ("isi_distance_matrix", pyspike.isi_distance_matrix, {}, -1),
             ("spike_distance_matrix", pyspike.spike_distance_matrix, rik, -1),
             ("spike_sync_matrix", pyspike.spike_sync_matrix, mtk, +1)):
-        A = np.asarray(ctx.call(name + ":auto", fn, sts, MRTS="auto", **extra))
+        A = np.asarray(ctx.call(name + ":auto", fn, sts, MRTS="auto", **rok, **extra))
         B = np.asarray(ctx.call(name + ":explicit", fn, sts, MRTS=thr, **extra))
         ctx.check(_eq(A, B, 1e-9), "auto_vs_explicit:" + name,
                   lambda: "%s: MRTS='auto' %r, MRTS=%r %r" % (name, A.tolist(), thr, B.tolist()))
